@@ -796,6 +796,28 @@ func genTrace(prop string, seed uint64, run int, o genOpts) *Trace {
 					emit(Step{T: ti, Op: "get", K: mk(r.Intn(256))})
 				}
 			}
+			// at the peak (one node with a child for every byte value) and on the way
+			// down, ask every kind of question once
+			peak := func() {
+				emit(Step{T: ti, Op: "all"})
+				emit(Step{T: ti, Op: "back"})
+				emit(Step{T: ti, Op: "min"})
+				emit(Step{T: ti, Op: "max"})
+				emit(Step{T: ti, Op: "size"})
+				emit(Step{T: ti, Op: "topk", N: r.Range(1, 300)})
+				emit(Step{T: ti, Op: "botk", N: r.Range(1, 300)})
+				a, b := mk(r.Intn(256)), mk(r.Intn(256))
+				if g.kt.Kind != "collation" {
+					emit(Step{T: ti, Op: "range", K: a, K2: b})
+					emit(Step{T: ti, Op: "range", K: mk(0), K2: mk(255)})
+				}
+				if g.kt.Kind == "alpha" {
+					emit(Step{T: ti, Op: "prefix", K: clone(g.fanPfx)})
+					emit(Step{T: ti, Op: "prefix", K: a[:len(a)-1]})
+					emit(Step{T: ti, Op: "range", K: a})
+				}
+			}
+			peak()
 			down := r.Range(200, 256)
 			for i := 0; i < down; i++ {
 				k := mk(perm[(i*7+3)%256])
@@ -803,6 +825,9 @@ func genTrace(prop string, seed uint64, run int, o genOpts) *Trace {
 				s.Lay, s.Pad = lay(g)
 				g.m.Del(k)
 				emit(s)
+				if i == 0 || i == 207 || i == 219 || i == 243 || r.Intn(60) == 0 {
+					peak()
+				}
 			}
 			budget += len(tr.Steps)
 		}
